@@ -116,8 +116,11 @@ int asm_assemble_str(assemblyline_t al, const char *assembly_str) {
   // check minimum buffer length requirement
   check_buffer_len(al->buffer_len);
   // assemble string containing x64 assembly code
-  al->offset = assemble_all(al, assembly_str, NULL);
-  FAIL_IF(al->offset == ASM_ERROR);
+  // a failed call leaves the offset where it was: ASM_ERROR is not a position
+  // that later calls could write to
+  int new_offset = assemble_all(al, assembly_str, NULL);
+  FAIL_IF(new_offset == ASM_ERROR);
+  al->offset = new_offset;
   al->finalized = true;
   return EXIT_SUCCESS;
 }
@@ -138,10 +141,11 @@ int asm_assemble_string_counting_chunks(assemblyline_t al, char *str,
   al->chunk_size = chunk_size;
   check_buffer_len(al->buffer_len);
   // assemble string containing x64 assembly code
-  al->offset = assemble_all(al, str, dest);
+  int new_offset = assemble_all(al, str, dest);
   al->assembly_mode = saved_mode;
   al->chunk_size = saved_chunk_size;
-  FAIL_IF(al->offset == ASM_ERROR);
+  FAIL_IF(new_offset == ASM_ERROR);
+  al->offset = new_offset;
   al->finalized = true;
   return EXIT_SUCCESS;
 }
